@@ -9,6 +9,10 @@ requests (floats as 16 hex digits or `nan`; `codes` = FLOWDIRCODE.ravel() read f
   cacc    nrows ncols [codes] [flowdir] maxcells nodata [field] [acc0]   -> ok:[acc] | err:<kind>   c_accumulate on given buffers (no default cap)
   accpin / caccpin : same with the pinned (pre-fix) kernel                (diagnostics)
   down    nrows ncols [codes] [flowdir] [cells]                          -> [d or E]                one entry of c_downstream per cell
+  gacc    nrows ncols [codes] [flowdir] maxcells fdnodata none                      -> ok:[acc] [sens] nodata nrows ncols [field memory after] | err:<kind>
+  gacc    nrows ncols [codes] [flowdir] maxcells fdnodata fnrows fncols fnodata [fdata]   (grid.accumulate on grid objects: shapes, result no-data, field memory)
+  caccs   nrows ncols [codes] [flowdir] maxcells nodata [field] [acc0] alias(0|1)     -> ok:[field memory after] [accumulation memory after] | err:<kind>
+  clo     nrows ncols [codes] [flowdir] fuel                                        -> [closure of cell 0;closure of cell 1;...] [direct upstream of 0;...]
   spec    nrows ncols [codes] [flowdir] fuel                             -> allTerminate(0/1) [endsAt per cell, -9 = none]
 -/
 
@@ -17,6 +21,7 @@ def errName : Err → String
   | .badDims => "badDims"
   | .downstream => "downstream"
   | .oob => "oob"
+  | .shape => "shape"
 
 /-- reply: the values, then the cells whose value depends on the visiting order of the outer loop
 (terminal cells incremented by a capped walk; none when every walk ends) -/
@@ -31,8 +36,39 @@ def grid? (nr nc codes fd : String) : Option FlowGrid :=
     if codes.length = 9 then some ⟨nr, nc, codes, fd.toArray⟩ else none
   | _, _, _, _ => none
 
+def fmtNatMat (rows : List (List Nat)) : String :=
+  "[" ++ ";".intercalate (rows.map fun r => ",".intercalate (r.map toString)) ++ "]"
+
+def fmtGrid (g : FlowGrid) (mc : Int) : Except Err (Store Float × FieldGrid Float) → String
+  | .ok (s, r) => "ok:" ++ fmtFloatList r.data.toList ++ " " ++ fmtIntList (orderSensitive g (fuelOf (capOf g mc)))
+      ++ " " ++ hexOfFloat r.nodata ++ " " ++ toString r.nrows ++ " " ++ toString r.ncols ++ " " ++ fmtFloatList s.field.toList
+  | .error e => "err:" ++ errName e
+
 def handle (toks : List String) : String :=
   match toks with
+  | ["gacc", nr, nc, codes, fd, mc, fdnd, "none"] =>
+    match grid? nr nc codes fd, mc.toInt?, floatTok? fdnd with
+    | some g, some mc, some fdnd => fmtGrid g mc (gridAccumulate g fdnd none mc)
+    | _, _, _ => "bad-op"
+  | ["gacc", nr, nc, codes, fd, mc, fdnd, fnr, fnc, fnd, fdata] =>
+    match grid? nr nc codes fd, mc.toInt?, floatTok? fdnd, fnr.toInt?, fnc.toInt?, floatTok? fnd, parseFloatList? fdata with
+    | some g, some mc, some fdnd, some fnr, some fnc, some fnd, some fdata =>
+      fmtGrid g mc (gridAccumulate g fdnd (some ⟨fnr, fnc, fdata.toArray, fnd⟩) mc)
+    | _, _, _, _, _, _, _ => "bad-op"
+  | ["caccs", nr, nc, codes, fd, mc, nodata, field, acc0, alias] =>
+    match grid? nr nc codes fd, mc.toInt?, floatTok? nodata, parseFloatList? field, parseFloatList? acc0 with
+    | some g, some mc, some nodata, some field, some acc0 =>
+      match cAccumulateS g mc nodata ⟨field.toArray, acc0.toArray, alias == "1"⟩ with
+      | .ok s => "ok:" ++ fmtFloatList s.field.toList ++ " " ++ fmtFloatList s.accArr.toList
+      | .error e => "err:" ++ errName e
+    | _, _, _, _, _ => "bad-op"
+  | ["clo", nr, nc, codes, fd, fuel] =>
+    match grid? nr nc codes fd, fuel.toNat? with
+    | some g, some fuel =>
+      let cells := List.range g.ntot.toNat
+      fmtNatMat (cells.map fun (c : Nat) => upClosure g fuel (c : Int)) ++ " " ++
+        fmtNatMat (cells.map fun (c : Nat) => directUpList g (c : Int))
+    | _, _ => "bad-op"
   | [op, nr, nc, codes, fd, mc, nodata, field] =>
     match grid? nr nc codes fd, mc.toInt?, floatTok? nodata, parseFloatList? field with
     | some g, some mc, some nodata, some field =>
